@@ -42,11 +42,28 @@ NON_ISO = {"Extension<GFqDom<int64_t>>", "GFqDom<int64_t>", "GFqDom<int32_t>", "
 # so every object built that way in any history is compared with the same construction in an otherwise empty process
 DET_VARIANTS = {"GFqDom<int64_t>": (1, 2, 4, 5), "GFqDom<int32_t>": (1, 2, 4, 5), "GFqExtFast<int64_t>": (1,),
                 "Poly1Dom<GFqDom<int64_t>,Dense>": (2,), "Poly1FactorDom<GFqDom<int64_t>,Dense>": (2,), "Extension<GFqDom<int64_t>>": (2,)}
-NVARIANTS = 6          # construct events carry q = P + 4 * V: parameter set P (0..3), constructor overload V (harness/c16_probes.h make())
+NVARIANTS = 8          # construct events carry q = P + 4 * V: parameter set P (0..3), constructor overload V (harness/c16_probes.h make())
 VARIANT_NAMES = {0: "usual constructor", 1: "second overload (Residu_t / prescribed irreducible / (p,e,Indeter) / (Poly1Dom,generator) / container<TT> / default+setPrimes)",
                  2: "third overload (Source = Integer / prescribed irreducible and generator / (Pol_t, irreducible) / base field with prescribed polynomials)",
                  3: "default constructor then assignment from a temporary", 4: "Source = double / other Vector type (4 arguments)",
-                 5: "built for another modulus then assigned / Vector = deque (3 arguments)"}
+                 5: "built for another modulus then assigned / Vector = deque (3 arguments)",
+                 6: "built IN PLACE from caller-owned arguments (source value, coefficient vector, base field + Indeter + generator, array of primes / of fields) which the caller then "
+                    "overwrites in place with another parameter set, reuses for a second object, resizes and destroys",
+                 7: "the same for the second overload with non-scalar arguments (Source = Integer; 4-argument GFqDom; Extension(Pol_t, irreducible); Poly1FactorDom(Poly1Dom, generator); "
+                    "IntRNSsystem(container<TT>); RNSsystem() + setPrimes; polynomial domain over a caller-owned field)"}
+RECYCLED = (6, 7)          # overloads whose arguments are recycled by the caller afterwards: the object must equal the plain overload below
+
+
+def recycle_base(cls, V):
+    """the constructor overload that overload V (6, 7) calls before the caller recycles the arguments"""
+    if V == 6:
+        return 1 if cls.startswith("GFq") else 0
+    return 1 if cls in ("Poly1FactorDom<Modular<double>,Dense>", "IntRNSsystem<vector>", "RNSsystem<Integer,Modular<double>>") else 2
+
+
+def base_q(cls, q):
+    """construct parameter of the same construction without recycling"""
+    return (q & 3) + 4 * recycle_base(cls, q >> 2) if (q >> 2) in RECYCLED else q
 # expiry of the harness's own limits (CPU limit, wall-clock alarm, OOM killer): a statement about the tooling, never a violation by itself
 WATCHDOG = ("watchdog-cpu", "watchdog-wall", "skipped-after-watchdog", "signal-14", "signal-24", "signal-9")
 TOOLING_MARKS = ("[timeout after", "[timeout]", "Killed", "out of memory", "Out of memory", "virtual memory exhausted", "annot allocate memory",
@@ -74,6 +91,7 @@ CALL_FORMS = {
 
 
 def iso_ok(cls, q):
+    q = base_q(cls, q)
     return cls not in NON_ISO or (q >> 2) in DET_VARIANTS.get(cls, ())
 
 
@@ -106,6 +124,7 @@ POLY_VARIANTS = (1, 2, 4, 5)          # constructor overloads with a prescribed 
 
 def gfq_params(cls, q):
     """(p, e) of the field built by constructor overload q >> 2 from parameter set q & 3 (harness/c16_probes.h make())"""
+    q = base_q(cls, q)
     p, e = GFQ_PARAMS[q & 3]
     if e == 1 and (cls.startswith("GFqExt") or (q >> 2) in POLY_VARIANTS):
         e = 2
@@ -248,6 +267,18 @@ def structural_c16(chk, descs):
                                "description generated from the source: the members of an object built through this constructor depend on state shared by all "
                                "objects of the process (the first construction initialises a function-local static): C16_static_ctor_refuted / "
                                "C16_static_parameter_init_refuted exhibit the failing history")
+        # a member that shares storage with an ARGUMENT of a constructor / setter depends on an object outside the lineage
+        seen_as = set()
+        for a in d.get("arg_shared") or []:
+            if a["member"] not in mi.arg_shared_offenders() or (a["where"], a["member"]) in seen_as:
+                continue
+            seen_as.add((a["where"], a["member"]))
+            chk.fail_input(a["where"], "argument-shared:%s" % a["member"],
+                           {"class": name, "where": a["where"], "member": a["member"], "argument": a["param"], "form": a["form"]},
+                           "every member holds a VALUE copy of what the constructor / setter receives (givWithCopy, copy constructor, assign)",
+                           "%s is a %s of the argument `%s`" % (a["member"], a["form"], a["param"]),
+                           "description generated from the source: the member shares storage with an object the caller still owns; overwriting, reusing or destroying the "
+                           "argument changes the object (C16_arg_shared_refuted exhibits the failing history: Construct, Outside, Use)")
         for m in mi.mutator_offenders():
             miss = mi.mutator_missing(m)
             chk.fail_input(om.msite(m), "mutator-leaves:" + ",".join(miss),
@@ -427,6 +458,8 @@ def category(ev, obj):
 
 def klass_of(evs, idx, ev, obj):
     """input class of a divergence: anything at or after a self-assignment is keyed as such"""
+    if ev[0] == "c" and int(ev[1]) == obj and (int(ev[3:]) >> 2) in RECYCLED:
+        return "caller-arguments-recycled"
     if any(e[0] == "s" for e in evs[:idx + 1]):
         return "after-mutate"
     for e in evs[:idx + 1]:
@@ -448,8 +481,8 @@ def check_history(chk, cls, hist, steps, crash, iso):
         if k == "c":
             p = int(ev[3:])
             base = dict(objs.get(n, {}))
-            if iso.get((cls, p)):
-                base = dict(iso[(cls, p)])         # deterministic construction: the reference is the isolated process
+            if iso.get((cls, base_q(cls, p))):
+                base = dict(iso[(cls, base_q(cls, p))])         # deterministic construction: the reference is the isolated process (without recycling of the arguments)
             ref[n] = (p, base)
         elif k == "s":
             p = int(ev[3:])              # re-parameterised in place: from now on a fresh object of parameter set p
@@ -473,6 +506,8 @@ def check_history(chk, cls, hist, steps, crash, iso):
                     e = vecval_oracle(cls, p)          # independent specification, not the object's own earlier answer
                 elif part == "pf":
                     e = pf_oracle(cls, p)
+                elif part == "args":
+                    e = "independent"                  # the probe did not change when the caller overwrote / reused / destroyed the constructor's arguments
                 if e is not None and h != e and part not in reported:
                     reported.add(part)
                     chk.fail_input("history:%s:%s" % (cls, part), klass_of(evs, idx, ev, o),
@@ -684,6 +719,7 @@ def run_histories(chk, rng, tier, classes=None):
     if bad:
         report_stream_loss(chk, "isolated references", sum(1 for l in out if l is None), len(out), bad)
     iso, have = {}, {}
+    recycled_iso = []
     for (c, q), line in zip(reqs, out):
         if line is None:
             continue
@@ -697,8 +733,10 @@ def run_histories(chk, rng, tier, classes=None):
             cls, steps, crash = parse_line(line)
         have.setdefault(c, set()).add(q)
         if steps and crash is None and 0 in steps[0][1]:
-            if iso_ok(c, q):
+            if iso_ok(c, q) and (q >> 2) not in RECYCLED:
                 iso[(c, q)] = steps[0][1][0]
+            elif (q >> 2) in RECYCLED:
+                recycled_iso.append((c, q, steps[0][1][0]))
         elif crash is not None:
             chk.fail_input("history:%s:construct" % c, "isolated", {"class": c, "constructor_overload": q >> 2, "parameter_set": q & 3, "line": line[:200]},
                            "no crash", crash, "construction + probe in an empty process crashes")
@@ -711,6 +749,9 @@ def run_histories(chk, rng, tier, classes=None):
         if not (steps and crash is None and steps[0][1].get(0) == iso[(c, q)]):
             del iso[(c, q)]
             chk.notes.append("%s constructor overload %d, parameter set %d: two isolated constructions differ (randomised?): lineage reference only" % (c, q >> 2, q & 3))
+    # the isolated constructions with recycled arguments are histories of their own ("cN:q" alone): evaluate them
+    for c, q, parts in recycled_iso:
+        check_history(chk, c, "c0:%d" % q, [("c0:%d" % q, {0: parts})], None, iso)
     chk.cov["constructor_overloads"] = {c: sorted(set(q >> 2 for q in have.get(c, ()))) for c in classes}
     chk.cov["constructor_overload_names"] = VARIANT_NAMES
     # ---- histories
@@ -823,6 +864,8 @@ def main(tier, replay=None):
         chk.cov["constructors_analysed"] = {d["name"]: sorted(set("%s(%s)%s" % (c.get("cls"), c.get("params", ""), " [template pattern]" if c.get("pattern") else "") for c in d.get("ctors") or []))
                                             for d in descs}
         chk.cov["constructors_not_analysed"] = {d["name"]: d.get("ctors_unanalysed") for d in descs if d.get("ctors_unanalysed")}
+        chk.cov["argument_sharing"] = {d["name"]: d.get("arg_shared") for d in descs if d.get("arg_shared")}
+        chk.cov["classes_without_argument_sharing"] = sum(1 for d in descs if not d.get("arg_shared"))
         chk.cov["classes_with_pure_constructors"] = sum(1 for d in descs if om.Mirror(d).ctor_pure())
         chk.cov["benign_statics"] = {d["name"]: d.get("benign_statics") for d in descs if d.get("benign_statics")}
         for d in descs:
